@@ -40,6 +40,7 @@ class Rec:
         self.fps = {}         # label -> weakref to the file object of an opened image
         self.closed = set()   # labels on which close()/__exit__ was called
         self.gone = set()     # labels whose object was garbage collected
+        self.gc_open = set()  # labels of library-opened images collected while their file was still open
         self.raws = []        # (label, weakref to file object) opened with builtins.open by the library
 
     def label(self, img, role):
@@ -47,15 +48,38 @@ class Rec:
         self.n += 1
         img.__dict__["_c11"] = lab
         self.alive[lab] = weakref.ref(img)
-        gone = self.gone
-        weakref.finalize(img, gone.add, lab)
+        gone, gc_open, closed = self.gone, self.gc_open, self.closed  # this case's sets (stale callbacks stay out)
         fp = getattr(img, "fp", None)
+        fpref = None
         if fp is not None and not isinstance(fp, io.BytesIO):
             try:
-                self.fps[lab] = weakref.ref(fp)
+                fpref = self.fps[lab] = weakref.ref(fp)
             except TypeError:
                 pass
+
+        def on_collect():
+            # runs while the image's attributes (hence its file object) still exist
+            gone.add(lab)
+            f = fpref() if fpref is not None else None
+            if role == "o" and lab not in closed and f is not None and not f.closed:
+                gc_open.add(lab)
+
+        weakref.finalize(img, on_collect)
         return lab
+
+    def open_unclosed(self):
+        """library-opened images that nobody closed and whose file is (or was, when collected) still open:
+        Pillow closes the file of a single-frame image by itself once it is loaded — those stay out."""
+        out = set(self.gc_open)
+        for lab, ref in self.alive.items():
+            img = ref()
+            if img is None or lab[0] != "o" or lab in self.closed:
+                continue
+            f = self.fps.get(lab)
+            f = f() if f is not None else None
+            if f is not None and not f.closed and getattr(img, "fp", None) is not None:
+                out.add(lab)
+        return sorted(out)
 
     def lab_of(self, img):
         return getattr(img, "__dict__", {}).get("_c11", "?")
